@@ -199,6 +199,7 @@ class Check:
             o.result = {"status": "unsat" if goal else "sat", "trivial": True, "t": 0.0, "model": {}}
             return
         s = z3.Solver()
+        n_as = 0
         for a in o.assumptions:
             if isinstance(a, (bool, np.bool_)):
                 if not a:
@@ -206,17 +207,23 @@ class Check:
                     return
                 continue
             s.add(a)
+            n_as += 1
         s.add(z3.Not(goal))
         text = s.to_smt2()
         names = set(_DECL_RE.findall(text))
         axs = relevant_axioms(names)
         if axs:
-            s.add(*axs)
-            text = s.to_smt2()
+            # append the relevant constant axioms textually (one serialisation of the big terms only)
+            extra_names = set()
+            for ax in axs:
+                extra_names |= _axiom_names_cache[ax.get_id()]
+            decls = "".join(f"(declare-fun {n} () Real)\n" for n in sorted(extra_names - names))
+            body = "".join(f"(assert {ax.sexpr()})\n" for ax in axs)
+            cut = text.rfind("(check-sat)")
+            text = text[:cut] + decls + body + "(check-sat)\n"
         o.text = text
-        g = z3.Solver()
-        g.add(z3.Not(goal))
-        o.goal_text = g.to_smt2()
+        o.goal_text = None
+        o.meta["_goal_index"] = len(s.assertions()) - 1
 
     # ----- main loop -----
     def run(self):
@@ -240,7 +247,7 @@ class Check:
         farm = Farm()
         t_s0 = time.time()
         queries = [
-            {"id": i, "text": o.text, "goal_text": o.goal_text, "timeout_s": o.timeout or self.default_timeout, "tactic": o.meta.get("tactic")}
+            {"id": i, "text": o.text, "goal_index": o.meta.get("_goal_index"), "timeout_s": o.timeout or self.default_timeout, "tactic": o.meta.get("tactic")}
             for i, o in enumerate(todo)
         ]
         res = farm.run(queries) if queries else {}
@@ -357,9 +364,9 @@ class Check:
                 continue
             fam_seen.add(o.family)
             s = {"obligation": o.name, "status": o.result.get("status") if o.result else None, "solver_s": round(o.result.get("t", 0.0), 3) if o.result else None}
-            if o.goal_text:
-                gt = o.goal_text
-                s["negated_goal_smt2"] = gt if len(gt) < 1500 else gt[:1500] + " ...[truncated]"
+            if o.text:
+                gt = o.text
+                s["query_smt2"] = gt if len(gt) < 1500 else gt[:700] + " ...[truncated]... " + gt[-700:]
             if o.result and o.result.get("detail"):
                 s["detail"] = str(o.result["detail"])[:600]
             samples.append(s)
